@@ -15,7 +15,8 @@ RULE = ("for valid SPEC-generated exchanges (Valve: info / players / rules units
         "rebuilt by the model driver from the SPEC's plan (entry <family>plan: Spec.faultyScript / faultyFaults): the two "
         "lines must be identical, the hypotheses of the theorem are evaluated (theorem-domain count), and result and the "
         "whole list of datagrams sent (with failed flags) are compared with the SPEC's faultyExpected / faultySends. "
-        "Non-trivial = a delivery was received; distinct = distinct implementation outputs.")
+        "A sample of all these cases runs again with other durations next to the retry count (none at all, only one of "
+        "them, nanoseconds): same expectations. Non-trivial = a delivery was received; distinct = distinct implementation outputs.")
 ASSUMPTIONS = ["timeouts are scripted deliveries (silence); real socket timeouts are C12's subject"]
 TRUSTED = ["hand-written Lean model of utils.rs retry_on_timeout and of the protocols' use of it, checked against the code on every run"]
 
@@ -96,6 +97,15 @@ def run(rep, tier, seed, replay=None):
                                 finally:
                                     malformed.CURRENT = malformed.DEFAULT
 
+    # the retry count is the caller's whatever the durations next to it are (none at all = blocking sockets, only some):
+    # a sample of the cases again with other durations in the settings — same expectations
+    TDS = ["-,-,-", "-,-,0:1", "-,7:0,-", "7:0,-,-", "0:1,0:1,0:1"]
+    sample = [c for c in cases if c.split(" ", 1)[0] in meta]
+    for j, line in enumerate(rnd.sample(sample, min(len(sample), 400 if tier == "quick" else 20000))):
+        cid = line.split(" ", 1)[0]
+        cid2 = f"{cid}td{j % len(TDS)}"
+        cases.append(f"{cid2} {line.split(' ', 1)[1]} td={TDS[j % len(TDS)]}")
+        meta[cid2] = meta[cid]
     # the same cases as the SPEC's plan scripts (the scripts the whole-query theorems C10_<family>_query_* speak about):
     # the line built here must BE the line the SPEC builds, and carries the prescribed outcome and sends
     spec = {}
